@@ -80,6 +80,17 @@ ErrFrame(f, b) == Echo(f, b) /\ HSess(b) = f.sess /\ HStat(b) # <<0, 0, 0, 0>>
 PayloadLen(SC, f) == Len(FrameBytes(SC.cfg, f)) - 24
 Oversize(SC, f) == "limit" \in DOMAIN SC /\ PayloadLen(SC, f) > SC.limit
 
+\* The List* replies of the simulator: one Communications service (capability 0x20: CIP encapsulation over TCP); the Identity object
+\* as configured by default (a 1756-L61/B LOGIX5561: vendor 1, device type 14, product code 54, revision 20.11, status 0x3160,
+\* serial 0x006c061a, state 0xFF), socket address family 2, port 44818, address 0.0.0.0; no interfaces
+SimServices == [version |-> 1, capability |-> 32, name |-> <<67, 111, 109, 109, 117, 110, 105, 99, 97, 116, 105, 111, 110, 115>>]
+SimIdentity == [version |-> 1, family |-> 2, port |-> 44818, addr |-> <<0, 0, 0, 0>>, vendor |-> 1, devtype |-> 14, product |-> 54, revision |-> 2836,
+                status |-> 12640, serial |-> <<26, 6, 108, 0>>,
+                name |-> <<49, 55, 53, 54, 45, 76, 54, 49, 47, 66, 32, 76, 79, 71, 73, 88, 53, 53, 54, 49>>, state |-> 255]
+ListPayload(kind) == CASE kind = "listservices" -> EncCPF(<<EncServicesItem(SimServices)>>)
+                       [] kind = "listidentity" -> EncCPF(<<EncIdentityItem(SimIdentity)>>)
+                       [] kind = "listinterfaces" -> EncCPF(<<>>)
+
 \* May the request processing of frame f, in memory m, be answered by reply b -- and with which memories after?
 \* Result: set of [mem, close]; empty = reply not allowed.
 ReplyOutcomes(SC, m, f, b) ==
@@ -88,7 +99,7 @@ ReplyOutcomes(SC, m, f, b) ==
          IF Echo(f, b) /\ HStat(b) = <<0, 0, 0, 0>> /\ HSess(b) # <<0, 0, 0, 0>> /\ SubSeq(b, 25, Len(b)) = RegisterPayload
          THEN { [mem |-> m, close |-> FALSE] } ELSE {}
     [] f.kind \in {"listservices", "listidentity", "listinterfaces"} ->
-         IF Echo(f, b) /\ HStat(b) = <<0, 0, 0, 0>> THEN { [mem |-> m, close |-> FALSE] } ELSE {}
+         IF Echo(f, b) /\ HStat(b) = <<0, 0, 0, 0>> /\ SubSeq(b, 25, Len(b)) = ListPayload(f.kind) THEN { [mem |-> m, close |-> FALSE] } ELSE {}
     [] f.kind = "rr" ->
          IF ~RouteAccepted(SC.pers, f)
          THEN (IF ErrFrame(f, b) THEN { [mem |-> m, close |-> TRUE] } ELSE {})          \* C15: refused, error status
@@ -138,7 +149,7 @@ EncOut(C, r, o) ==
 RepliesOf(SC, m, f) ==
   CASE Oversize(SC, f) -> { EncEnip(KindCmd(f.kind), f.sess, 101, f.ctx, 0, <<>>) }
     [] f.kind = "register" -> { EncEnip(CmdRegister, <<1, 0, 0, 0>>, 0, f.ctx, 0, RegisterPayload) }
-    [] f.kind \in {"listservices", "listidentity", "listinterfaces"} -> { EncEnip(KindCmd(f.kind), f.sess, 0, f.ctx, 0, <<0, 0>>) }
+    [] f.kind \in {"listservices", "listidentity", "listinterfaces"} -> { EncEnip(KindCmd(f.kind), f.sess, 0, f.ctx, 0, ListPayload(f.kind)) }
     [] f.kind = "rr" /\ ~RouteAccepted(SC.pers, f) -> { EncEnip(CmdSendRR, f.sess, 8, f.ctx, 0, <<>>) }
     [] f.kind = "rr" /\ f.req.svc # "multi" ->
          { RRReply(f, EncOut(SC.cfg, f.req, o)) : o \in SingleOuts(SC.cfg, m, f.req) }
